@@ -1,12 +1,19 @@
 #!/bin/bash
-# seedtest.sh <patch.diff> <check ids...> : apply a seeded change to /repo, run the quick checks, undo the change
+# seedtest.sh <patch.diff> <check ids...> : apply a seeded change, run the quick checks, undo the change.
+# default: git -C /repo apply ... ; git -C /repo checkout -- .     SCRATCH=1: work on a scratch copy of /repo/include
+# (used while a background run is reading /repo) through VERIF_REPO.
 patch=$1; shift
-git -C /repo apply "$patch" || { echo "patch does not apply"; exit 2; }
+if [ -n "$SCRATCH" ]; then
+  rm -rf /tmp/seedrepo; mkdir -p /tmp/seedrepo; rsync -a /repo/include /tmp/seedrepo/
+  (cd /tmp/seedrepo && patch -p1 -s < "$patch") || { echo "patch does not apply"; exit 2; }
+  export VERIF_REPO=/tmp/seedrepo
+else
+  git -C /repo apply "$patch" || { echo "patch does not apply"; exit 2; }
+fi
 for c in "$@"; do
   out=$(/verif/bin/check $c 2>&1)
   rc=$?
   echo "== $c exit=$rc: $(echo "$out" | grep -v '^  ' | tail -1 | cut -c1-200)"
   echo "$out" | grep -A1 "^VIOLATION" | head -4 | cut -c1-400
 done
-git -C /repo checkout -- .
-git -C /repo status --short | grep -v _build
+if [ -n "$SCRATCH" ]; then rm -rf /tmp/seedrepo; else git -C /repo checkout -- .; git -C /repo status --short | grep -v _build; fi
